@@ -45,6 +45,20 @@ pub enum PStep {
     Mark(String),
     /// close the peer's sending direction (EOF for E)
     Close,
+    /// (RAW-C) a Respond / RespondData / RespondFrame step aimed at the stream whose request carried `x-id: key`,
+    /// whichever position it was opened in; waits until that request has appeared
+    ForKey { key: u32, step: Box<PStep> },
+}
+
+impl PStep {
+    fn with_nth(&self, n: usize) -> PStep {
+        let mut s = self.clone();
+        match &mut s {
+            PStep::Respond { nth, .. } | PStep::RespondData { nth, .. } | PStep::RespondFrame { nth, .. } => *nth = n,
+            _ => {}
+        }
+        s
+    }
 }
 
 #[derive(Clone, Copy, Debug, PartialEq, Serialize, Deserialize)]
@@ -78,6 +92,8 @@ pub struct PeerObs {
     pub e_closed: bool,
     /// streams E opened, in order
     pub e_streams: Vec<u32>,
+    /// x-id of the request that opened a stream -> its position in `e_streams`
+    pub e_keys: HashMap<u32, usize>,
     pub gave_up_waiting: Vec<usize>,
 }
 
@@ -105,6 +121,17 @@ struct St {
     data_left: usize,
     spins_waiting: u32,
     reading: bool,
+}
+
+fn note_key(obs: &Rc<RefCell<PeerObs>>, stream: u32, r: &Result<(Vec<Field>, crate::refmodel::hpack::BlockInfo), crate::refmodel::hpack::HpackErr>) {
+    if let Ok((fields, _)) = r {
+        if let Some(k) = fields.iter().find(|f| f.name == b"x-id").and_then(|f| std::str::from_utf8(&f.value).ok()).and_then(|v| v.parse::<u32>().ok()) {
+            let mut o = obs.borrow_mut();
+            if let Some(pos) = o.e_streams.iter().position(|s| *s == stream) {
+                o.e_keys.entry(k).or_insert(pos);
+            }
+        }
+    }
 }
 
 fn enc_choice(enc: u8, i: usize) -> Choice {
@@ -242,7 +269,8 @@ pub async fn peer_task(spec: Rc<RawSpec>, rx: PipeRef, tx: PipeRef, peer_is_clie
                         st.e_ended.insert(stream, true);
                     }
                     if end_headers {
-                        let _ = st.dec.decode_block(&frag);
+                        let r = st.dec.decode_block(&frag);
+                        note_key(&obs, stream, &r);
                     } else {
                         st.open_block = Some((stream, frag));
                     }
@@ -251,7 +279,8 @@ pub async fn peer_task(spec: Rc<RawSpec>, rx: PipeRef, tx: PipeRef, peer_is_clie
                     if let Some((s, mut acc)) = st.open_block.take() {
                         acc.extend(frag);
                         if end_headers {
-                            let _ = st.dec.decode_block(&acc);
+                            let r = st.dec.decode_block(&acc);
+                            note_key(&obs, s, &r);
                         } else {
                             st.open_block = Some((s, acc));
                         }
@@ -347,9 +376,29 @@ pub async fn peer_task(spec: Rc<RawSpec>, rx: PipeRef, tx: PipeRef, peer_is_clie
                 return Poll::Pending;
             }
             let idx = st.pc;
-            let step = &spec.script[idx];
             let before = tx.borrow().written.len();
             let mut advance = true;
+            let resolved: PStep;
+            let step = match &spec.script[idx] {
+                PStep::ForKey { key, step } => {
+                    let nth = obs.borrow().e_keys.get(key).copied();
+                    match nth {
+                        Some(nth) => {
+                            resolved = step.with_nth(nth);
+                            &resolved
+                        }
+                        None => {
+                            // not opened yet: wait (a Yield(0) that does not advance)
+                            if !e_gone {
+                                advance = false;
+                            }
+                            resolved = PStep::Mark(String::new());
+                            &resolved
+                        }
+                    }
+                }
+                s => s,
+            };
             match step {
                 PStep::Frame { f, extra_flags, r_bit } => {
                     let mut raw = f.to_raw(*extra_flags, 0);
@@ -539,12 +588,15 @@ pub async fn peer_task(spec: Rc<RawSpec>, rx: PipeRef, tx: PipeRef, peer_is_clie
                     }
                 }
                 PStep::Mark(m) => {
-                    obs.borrow_mut().marks.push((m.clone(), clock.get(), before));
+                    if !m.is_empty() {
+                        obs.borrow_mut().marks.push((m.clone(), clock.get(), before));
+                    }
                 }
                 PStep::Close => {
                     st.closed = true;
                     tx.borrow_mut().close_writer();
                 }
+                PStep::ForKey { .. } => {}
             }
             if advance {
                 obs.borrow_mut().executed.push((idx, clock.get(), before));
